@@ -2,26 +2,23 @@
    /repo/eth/protocols/snap/sync.go).  Property theorems only; each is closed by [exact] of a
    lemma of Net/SnapSyncProofs.v about the model Net/SnapSync.v.
 
-   Level: PARTIAL.  Proved here over ALL event histories (any order, duplication, loss of
-   responses, honest or dishonest peers, timeouts, restarts from persisted progress):
-   only_verified_stored.  Proved per operation (for every state): a rejected / empty / stale /
-   timed-out response changes nothing; forwardAccountTask is the only operation that moves Next
-   and moves it forward under the range verifier's contract.
-   NOT proved in Coq (checked on every run by the Go oracle and by the model/implementation
-   correspondence instead):
-     ranges_partition      : forall evs, the [Next,Last] ranges of the live account tasks (and of the
-                             chunks of each large contract) are pairwise disjoint, sorted, and
-                             together with the persisted ranges cover the hash space;
-     complete_implies_equal: under verify_sound (an accepted response is exactly the target's items
-                             in [origin, last key] and more <-> the target has keys beyond),
-                             forall evs, s_tasks (run c root evs) = [] -> flat accounts / storage /
-                             codes = target;
-     progress_monotone over histories and restart_resumes as invariant statements (the all-histories
-                             theorem below does cover ERestart events: the provenance invariant
-                             holds again after every reload from persisted progress);
-     bal_catchup_exact     : the access-list catch-up lives in the separate snap/2 syncer
-                             (syncv2.go, bal_apply.go), which is not modelled. *)
-From GV Require Import Lib.Tactics Net.SnapSync Net.SnapSyncProofs.
+   Level: PARTIAL.  Over ALL event histories (any order, duplication, loss of responses, honest or
+   dishonest peers, timeouts, cancel + restart from persisted progress):
+     only_verified_stored, ranges_partition (account tasks), progress_monotone, restart_resumes,
+     complete_implies_equal for the flat ACCOUNT state (both inclusions).
+   The range theorems are stated for histories whose ACCEPTED account-range responses satisfy the range
+   verifier's contract [acc_sound] (C09: keys strictly increasing and >= origin, items are target items,
+   none missing up to the last key, more = false only if the target has no key beyond) - an explicit
+   hypothesis [trace_sound] on the recorded verdicts.  The origin is taken as the Next marker of the
+   task the response fills (the request's origin: Next does not move while a request is outstanding;
+   that identification itself is not proved).
+   NOT proved in Coq (Go oracle + model/implementation correspondence on every run instead):
+     the storage-chunk (sub-task) half of ranges_partition as an all-histories invariant (proved per
+     operation: chunk creation is an exact partition of the slot space, a chunk delivery moves Next forward
+     inside its chunk) and the storage / code inclusion target <= store at completion (the inclusion store <= target IS proved:
+     C47_stored_subset_target_partial); bal_catchup_exact (the access-list catch-up lives in the
+     separate snap/2 syncer, syncv2.go / bal_apply.go, which is not modelled). *)
+From GV Require Import Lib.Tactics Net.SnapSync Net.SnapSyncProofs Net.SnapSyncRanges Net.SnapSyncChunks.
 Local Open Scope N_scope.
 
 (* ---- only_verified_stored: whatever the local flat state holds after ANY event list was an item
@@ -88,3 +85,118 @@ Theorem C47_stored_subset_target_partial : forall c root evs
   (forall h x, get h (d_code (s_db s)) = Some x -> TC h x).
 Proof. exact stored_subset_target. Qed.
 Print Assumptions C47_stored_subset_target_partial.
+
+
+(* ================= range bookkeeping over all histories (Net/SnapSyncRanges.v) ================= *)
+
+(* ---- ranges_partition (account tasks): after ANY sound history the live account tasks are well-formed
+   ranges inside the hash space, pairwise disjoint and increasing; each is the not-yet-fetched suffix
+   [Next, Last] of one of the initial chunks (same Last, Next not below the chunk's start), and the initial
+   chunks are increasing, disjoint and cover the whole hash space [0, 2^256-1] - so live ranges together
+   with the completed prefixes (and the chunks of finished tasks) cover the hash space *)
+Theorem C47_ranges_partition : forall (tg : list (N * acct)),
+  (forall k a a', In (k, a) tg -> In (k, a') tg -> a = a') ->
+  forall c : config,
+  (forall k a, In (k, a) tg -> k <= MAXH) ->
+  1 <= c_acc c <= HSPACE ->
+  forall root evs,
+  trace_sound tg c (start c fresh root) evs ->
+  let ts := s_tasks (run c root evs) in
+  (forall t, In t ts -> t_done t = false /\ t_next t <= t_last t <= MAXH) /\
+  (forall l1 t1 l2 t2, ts = l1 ++ t1 :: l2 -> In t2 l2 -> t_last t1 < t_next t2) /\
+  (forall t, In t ts -> exists t0, In t0 (init_tasks c) /\ t_last t0 = t_last t /\ t_next t0 <= t_next t) /\
+  ranges_from 0 (init_tasks c) /\
+  (forall k, k <= MAXH -> exists t0, In t0 (init_tasks c) /\ t_next t0 <= k <= t_last t0).
+Proof. exact ranges_partition_acc. Qed.
+Print Assumptions C47_ranges_partition.
+
+(* ---- progress_monotone over histories: after any further events (restarts included) every live task
+   is a task that was live before, with the same Last and a Next that is not smaller *)
+Theorem C47_progress_monotone : forall (tg : list (N * acct)),
+  (forall k a a', In (k, a) tg -> In (k, a') tg -> a = a') ->
+  forall c : config,
+  (forall k a, In (k, a) tg -> k <= MAXH) ->
+  1 <= c_acc c <= HSPACE ->
+  forall root evs1 evs2,
+  trace_sound tg c (start c fresh root) (evs1 ++ evs2) ->
+  forall t', In t' (s_tasks (run c root (evs1 ++ evs2))) ->
+  exists t, In t (s_tasks (run c root evs1)) /\ t_last t = t_last t' /\ t_next t <= t_next t'.
+Proof. exact progress_monotone. Qed.
+Print Assumptions C47_progress_monotone.
+
+(* ---- complete_implies_equal (flat accounts; PARTIAL for storage and code, see the header): under the
+   verifier's contract, when no account task is left the flat account state IS the target: a key has a
+   body in the store iff it is a target account with that body *)
+Theorem C47_complete_implies_equal_accounts : forall (tg : list (N * acct)),
+  (forall k a a', In (k, a) tg -> In (k, a') tg -> a = a') ->
+  forall c : config,
+  (forall k a, In (k, a) tg -> k <= MAXH) ->
+  1 <= c_acc c <= HSPACE ->
+  forall root evs,
+  trace_sound tg c (start c fresh root) evs ->
+  (forall e k v, In e evs -> ev_acc e k v -> exists a, In (k, a) tg /\ a_blob a = v) ->
+  s_tasks (run c root evs) = [] ->
+  forall k v, get k (d_acc (s_db (run c root evs))) = Some v <-> exists a, In (k, a) tg /\ a_blob a = v.
+Proof. exact complete_accounts_equal. Qed.
+Print Assumptions C47_complete_implies_equal_accounts.
+
+(* ---- the invariant behind the three theorems holds after every sound history ... *)
+Theorem C47_invariant_all_histories : forall (tg : list (N * acct)),
+  (forall k a a', In (k, a) tg -> In (k, a') tg -> a = a') ->
+  forall c : config,
+  (forall k a, In (k, a) tg -> k <= MAXH) ->
+  1 <= c_acc c <= HSPACE ->
+  forall root evs, trace_sound tg c (start c fresh root) evs -> Inv tg c (run c root evs).
+Proof. exact run_inv. Qed.
+Print Assumptions C47_invariant_all_histories.
+
+(* ---- ... and restart_resumes: cancelling (forward every task, drop finished ones, persist) and starting
+   again from the persisted progress - with any root - yields a state that satisfies the same invariant,
+   whose progress record is exactly the saved markers, and in which no task's Next went backwards *)
+Theorem C47_restart_resumes : forall (tg : list (N * acct)),
+  (forall k a a', In (k, a) tg -> In (k, a') tg -> a = a') ->
+  forall (c : config) (s : syncer) (root' : N),
+  Inv tg c s ->
+  s_saved (shutdown s) = Some (map save_task (s_tasks (shutdown s))) /\
+  Inv tg c (start c (shutdown s) root') /\
+  mono_rel (s_tasks s) (s_tasks (start c (shutdown s) root')).
+Proof. exact restart_resumes. Qed.
+Print Assumptions C47_restart_resumes.
+
+
+(* ---- ranges_partition, storage chunks (PARTIAL: per operation, not lifted to histories).  Chunk splitting
+   (processStorageResponse + range.go newHashRange/Next/End): whenever the sub-tasks of a large contract are
+   created they are consecutive non-empty ranges starting at 0 and ending at 2^256-1 - pairwise disjoint and
+   covering the account's whole slot space *)
+Theorem C47_chunks_partition_partial : forall c keys root l,
+  (forall k, In k keys -> k <= MAXH) ->
+  make_chunks c keys root = Some l -> exact_from 0 l.
+Proof. exact make_chunks_partition. Qed.
+Print Assumptions C47_chunks_partition_partial.
+
+(* a chunk delivery keeps every chunk's Last; the addressed chunk is marked done with Next unchanged or gets
+   Next = successor of a delivered key strictly below its Last; under the verifier's contract (delivered keys
+   not below the chunk's Next) Next does not move backwards and stays inside the chunk *)
+Theorem C47_chunk_advance_partial : forall t2 sa sl account slots s p2 st' l',
+  sl <= MAXH ->
+  get sa (t_subs (sp_t (storage_D t2 (Some (sa, sl)) account slots s p2))) = Some l' ->
+  In st' l' ->
+  exists l st, get sa (t_subs t2) = Some l /\ In st l /\ st_last st' = st_last st /\
+    ((forall k v, In (k, v) slots -> st_next st <= k) -> st_next st <= st_next st' /\
+     (st_next st <= st_last st -> st_next st' <= st_last st')).
+Proof. exact chunk_advance_monotone. Qed.
+Print Assumptions C47_chunk_advance_partial.
+
+(* ---- the hypotheses of the range theorems are satisfiable: a concrete target (functional, inside the hash
+   space), a valid configuration and an honest history with the exact `more` flags for which [trace_sound]
+   holds, and which completes (no task left, no panic) *)
+Example C47_nonvacuous_sound :
+  (forall k a a', In (k, a) ex_tg -> In (k, a') ex_tg -> a = a') /\
+  (forall k a, In (k, a) ex_tg -> k <= MAXH) /\
+  1 <= c_acc ex_cfg <= HSPACE /\
+  trace_sound ex_tg ex_cfg (start ex_cfg fresh 1) ex_sound_events /\
+  c47_sound_example_check = true.
+Proof.
+  split; [exact ex_tg_fun|]. split; [exact ex_tg_bound|]. split; [exact ex_cfg_ok|].
+  split; [exact ex_trace_sound|]. vm_compute. reflexivity.
+Qed.
